@@ -316,37 +316,45 @@ Predict(o) ==
 (***************************************************************************)
 O(op, c, s, a) == [op |-> op, c |-> c, s |-> s, a |-> a]
 
-Aliases(sz) == {-1} \cup (0..(sz - 1))
-LenBound == IF Profile = "max" THEN MaxSize + 2 ELSE MaxLen
+Aliases(sz) == IF Profile = "wide" THEN {-1} \cup ({0, sz - 1} \cap (0..(sz - 1))) ELSE {-1} \cup (0..(sz - 1))
+LenBound == IF Profile = "max" THEN MaxSize + 2 ELSE IF Profile = "wide" THEN 400 ELSE MaxLen
+
+\* "wide": boundary arguments only (C12: no internal size computation may truncate or wrap, also for 8/16-bit
+\* size_type where lengths beyond 255 / 65535 matter): around max_size(), around 2^8, and a few small ones
+WideSet(sz) == {0, 1, 2, MaxSize - sz - 1, MaxSize - sz, MaxSize - sz + 1, 255 - sz, 256 - sz, 255, 256, 257, 300} \cap (0..400)
+Counts(sz)  == IF Profile = "wide" THEN WideSet(sz) ELSE 0..Min(MaxCnt, LenBound - sz)
+Sizes       == IF Profile = "wide" THEN WideSet(0) \cup {MaxSize - 1, MaxSize, MaxSize + 1} ELSE 0..LenBound
+Positions(sz) == IF Profile = "wide" THEN {0, sz} \cup ({1} \cap (0..sz)) ELSE 0..sz
 
 UnaryAll(c) ==
   LET x == st[c]
       sz == Len(x.e)
       room == LenBound - sz            \* how many elements may be added
-      cnts == 0..Min(MaxCnt, room)
+      cnts == Counts(sz)
   IN
      {O("push_back", c, "-", <<al>>) : al \in IF room >= 1 /\ Copyable THEN Aliases(sz) ELSE {}}
   \cup {O("push_back_m", c, "-", <<>>) : z \in IF room >= 1 THEN {0} ELSE {}}
   \cup {O("emplace_back_c", c, "-", <<al>>) : al \in IF room >= 1 /\ Copyable THEN Aliases(sz) ELSE {}}
   \cup {O("emplace_back_v", c, "-", <<>>) : z \in IF room >= 1 THEN {0} ELSE {}}
-  \cup {O(nm, c, "-", <<pos, al>>) : nm \in {"insert", "emplace_c"}, pos \in IF room >= 1 /\ Copyable THEN 0..sz ELSE {}, al \in Aliases(sz)}
-  \cup {O(nm, c, "-", <<pos>>) : nm \in {"insert_m", "emplace_v"}, pos \in IF room >= 1 THEN 0..sz ELSE {}}
-  \cup {O("insert_n", c, "-", <<pos, n, al>>) : pos \in IF Copyable THEN 0..sz ELSE {}, n \in cnts, al \in Aliases(sz)}
-  \cup {O("insert_rng", c, "-", <<pos, k, n>>) : pos \in 0..sz, k \in Kinds, n \in cnts}
-  \cup {O("insert_il", c, "-", <<pos, n>>) : pos \in IF Copyable THEN 0..sz ELSE {}, n \in cnts}
+  \cup {O(nm, c, "-", <<pos, al>>) : nm \in {"insert", "emplace_c"}, pos \in IF room >= 1 /\ Copyable THEN Positions(sz) ELSE {}, al \in Aliases(sz)}
+  \cup {O(nm, c, "-", <<pos>>) : nm \in {"insert_m", "emplace_v"}, pos \in IF room >= 1 THEN Positions(sz) ELSE {}}
+  \cup {O("insert_n", c, "-", <<pos, n, al>>) : pos \in IF Copyable THEN Positions(sz) ELSE {}, n \in cnts, al \in Aliases(sz)}
+  \cup {O("insert_rng", c, "-", <<pos, k, n>>) : pos \in Positions(sz), k \in Kinds, n \in cnts}
+  \cup {O("insert_il", c, "-", <<pos, n>>) : pos \in IF Copyable THEN Positions(sz) ELSE {}, n \in cnts \cap (0..6)}
   \cup {O("append_rng", c, "-", <<k, n>>) : k \in Kinds, n \in cnts}
-  \cup {O("append_il", c, "-", <<n>>) : n \in IF Copyable THEN cnts ELSE {}}
-  \cup {O("assign_n", c, "-", <<n>>) : n \in IF Copyable THEN 0..LenBound ELSE {}}
-  \cup {O("assign_rng", c, "-", <<k, n>>) : k \in Kinds, n \in 0..LenBound}
-  \cup {O(nm, c, "-", <<n>>) : nm \in {"assign_il", "opeq_il"}, n \in IF Copyable THEN 0..Min(LenBound, 6) ELSE {}}
-  \cup {O("erase", c, "-", <<pos>>) : pos \in 0..(sz - 1)}
-  \cup {O("erase_rng", c, "-", <<fl[1], fl[2]>>) : fl \in {p \in (0..sz) \X (0..sz) : p[1] <= p[2]}}
+  \cup {O("append_il", c, "-", <<n>>) : n \in IF Copyable THEN cnts \cap (0..6) ELSE {}}
+  \cup {O("assign_n", c, "-", <<n>>) : n \in IF Copyable THEN Sizes ELSE {}}
+  \cup {O("assign_rng", c, "-", <<k, n>>) : k \in Kinds, n \in Sizes}
+  \cup {O(nm, c, "-", <<n>>) : nm \in {"assign_il", "opeq_il"}, n \in IF Copyable THEN Sizes \cap (0..6) ELSE {}}
+  \cup {O("erase", c, "-", <<pos>>) : pos \in Positions(sz) \cap (0..(sz - 1))}
+  \cup {O("erase_rng", c, "-", <<fl[1], fl[2]>>) : fl \in {p \in Positions(sz) \X Positions(sz) : p[1] <= p[2]}}
   \cup {O("pop_back", c, "-", <<>>) : z \in IF sz > 0 THEN {0} ELSE {}}
   \cup {O("clear", c, "-", <<>>), O("shrink", c, "-", <<>>), O("dtor", c, "-", <<>>)}
-  \cup {O("resize", c, "-", <<n>>) : n \in 0..LenBound}
-  \cup {O("resize_v", c, "-", <<n, al>>) : n \in IF Copyable THEN 0..LenBound ELSE {}, al \in Aliases(sz)}
-  \cup {O("reserve", c, "-", <<n>>) : n \in (0..Min(MaxCap, MaxSize + 1)) \cap {0, x.cap - 1, x.cap, x.cap + 1, 2 * x.cap + 1, MaxSize, MaxSize + 1, NOf(cfg, c) + 1}}
-  \cup {O("at", c, "-", <<i>>) : i \in 0..sz}
+  \cup {O("resize", c, "-", <<n>>) : n \in Sizes}
+  \cup {O("resize_v", c, "-", <<n, al>>) : n \in IF Copyable THEN Sizes ELSE {}, al \in Aliases(sz)}
+  \cup {O("reserve", c, "-", <<n>>) : n \in IF Profile = "wide" THEN Sizes
+                                             ELSE (0..Min(MaxCap, MaxSize + 1)) \cap {0, x.cap - 1, x.cap, x.cap + 1, 2 * x.cap + 1, MaxSize, MaxSize + 1, NOf(cfg, c) + 1}}
+  \cup {O("at", c, "-", <<i>>) : i \in Positions(sz)}
 
 \* enough unary calls to reach every (size, capacity, inline/heap) state of a slot
 UnaryMovers(c) ==
@@ -360,11 +368,11 @@ UnaryMovers(c) ==
 
 CtorAll(c) ==
      {O("ctor_def", c, "-", <<aid>>) : aid \in AllocIds}
-  \cup {O("ctor_n", c, "-", <<aid, n>>) : aid \in AllocIds, n \in 0..LenBound}
-  \cup {O("ctor_nv", c, "-", <<aid, n>>) : aid \in IF Copyable THEN AllocIds ELSE {}, n \in 0..LenBound}
-  \cup {O("ctor_gen", c, "-", <<aid, n>>) : aid \in AllocIds, n \in 0..LenBound}
-  \cup {O("ctor_rng", c, "-", <<aid, k, n>>) : aid \in AllocIds, k \in Kinds, n \in 0..LenBound}
-  \cup {O("ctor_il", c, "-", <<aid, n>>) : aid \in IF Copyable THEN AllocIds ELSE {}, n \in 0..Min(LenBound, 4)}
+  \cup {O("ctor_n", c, "-", <<aid, n>>) : aid \in AllocIds, n \in Sizes}
+  \cup {O("ctor_nv", c, "-", <<aid, n>>) : aid \in IF Copyable THEN AllocIds ELSE {}, n \in Sizes}
+  \cup {O("ctor_gen", c, "-", <<aid, n>>) : aid \in AllocIds, n \in Sizes}
+  \cup {O("ctor_rng", c, "-", <<aid, k, n>>) : aid \in AllocIds, k \in Kinds, n \in Sizes}
+  \cup {O("ctor_il", c, "-", <<aid, n>>) : aid \in IF Copyable THEN AllocIds ELSE {}, n \in Sizes \cap (0..4)}
 
 CtorMovers(c) == {O("ctor_def", c, "-", <<aid>>) : aid \in AllocIds} \cup {O("ctor_n", c, "-", <<aid, n>>) : aid \in AllocIds, n \in {MaxLen}}
 
@@ -382,7 +390,7 @@ CtorFromAll(d, s) ==
   {O(nm, d, s, <<aid>>) : nm \in (IF Copyable THEN {"ctor_copy"} ELSE {}) \cup {"ctor_move"}, aid \in AllocIds}
 
 Enabled ==
-  CASE Profile \in {"one", "max"} ->
+  CASE Profile \in {"one", "max", "wide"} ->
          IF st.A.p THEN UnaryAll("A") ELSE CtorAll("A")
     [] Profile = "two" ->
          UNION { IF st[c].p THEN UnaryMovers(c) ELSE CtorMovers(c) : c \in {"A", "B"} }
@@ -432,7 +440,8 @@ Spec == Init /\ [][Next]_<<st, hist, everBig, allocCount>>
 
 View == <<st, everBig, allocCount > 0>>
 
-Bound == \A c \in {"A", "B"} : st[c].p => st[c].cap <= MaxCap
+Bound == /\ \A c \in {"A", "B"} : st[c].p => st[c].cap <= MaxCap
+         /\ (Profile = "wide" => Len(hist) <= 1)
 
 (***************************************************************************)
 (* Invariants (design level)                                               *)
@@ -441,5 +450,5 @@ InvStorage == \A t \in InvChecks(cfg, st, TRUE) : t[3] # 0
 \* C04, derived: a container that never held more than inline_capacity() elements and was never asked
 \* to reserve more never touches the allocator at all
 InvNeverBigNeverAllocates == ~everBig => allocCount = 0
-InvTypes == /\ \A c \in {"A", "B"} : st[c].p => Len(st[c].e) <= LenBound + MaxCnt
+InvTypes == /\ \A c \in {"A", "B"} : st[c].p => Len(st[c].e) <= LenBound + 400
 =============================================================================
